@@ -71,8 +71,36 @@ def resolve (req : Json) : R Reply := do
   let eff := match ds with | some d => resolveSkipDS d libs | none => resolveSkip arg libs
   return { model := strsJ (sortStr eff.eraseDups), holds := sortStr obs.eraseDups == sortStr eff.eraseDups }
 
+def asPt (j : Json) : R (Int × Int) := do
+  match ← asArr j with
+  | [x, y] => return (← asInt x, ← asInt y)
+  | _ => throw "point"
+
+/-- op "vfskip": a variable font compiled with and without a skip list, instantiated at the same locations.
+    in = {skip}; obs = {err} | {orderFull, orderSkip, samples:[[loc, name, advFull, advSkip, drawingFull, drawingSkip]]}.
+    No model of varLib: the declarative predicate is evaluated on the two observed fonts (model = null). -/
+def vfskip (req : Json) : R Reply := do
+  let i ← field req "in"
+  let skip ← asList asStr (← field i "skip")
+  let obs ← field req "obs"
+  let oerr ← asOpt asStr (← field obs "err")
+  match oerr with
+  | some _ => return { model := Json.null, holds := false }
+  | none =>
+    let orderFull ← asList asStr (← field obs "orderFull")
+    let orderSkip ← asList asStr (← field obs "orderSkip")
+    let samples ← asList (fun j => do
+      match ← asArr j with
+      | [loc, n, a, b, dF, dS] =>
+        pure ((← asStr loc, ← asStr n, ← asInt a, ← asInt b, ← asList (asList asPt) dF, ← asList (asList asPt) dS) :
+          String × String × Int × Int × List (List (Int × Int)) × List (List (Int × Int)))
+      | _ => throw "sample") (← field obs "samples")
+    let bad := vfWrong skip orderFull orderSkip samples
+    return { model := Json.null, holds := bad.isEmpty, info := strsJ bad }
+
 def handle (op : String) (req : Json) : R Reply :=
   match op with
+  | "vfskip" => vfskip req
   | "filter" => filter req
   | "compile" => compile req
   | "resolve" => resolve req
